@@ -42,55 +42,91 @@ def task_species_order(ctx):
     ctx.assume_note("generic row of three symbolic atomic numbers next to a sorted row")
 
 
+def replay_electron_count(uhf):
+    def rp(model):
+        """real Molecule(...) on the batch [H2O, OH + padding] with the model's charges (and multiplicities)."""
+        import torch
+        from seqm.seqm_functions.constants import Constants
+        from seqm.Molecule import Molecule
+
+        torch.set_default_dtype(torch.float64)
+        q = [int(round(model_float(model, "charge%d" % m, 0.0))) for m in range(2)]
+        mu = [int(round(model_float(model, "mult%d" % m, 1.0))) for m in range(2)]
+        params = {"method": "AM1", "scf_eps": 1e-7, "scf_converger": [1], "sp2": [False, 1e-5], "elements": [0, 1, 8], "learned": [], "pair_outer_cutoff": 1e10, "eig": True}
+        if uhf:
+            params["UHF"] = True
+        species = torch.tensor([[8, 1, 1], [8, 1, 0]])
+        coords = torch.tensor([[[0.0, 0, 0], [0.96, 0, 0], [-0.24, 0.93, 0]], [[0.0, 0, 0], [0.97, 0, 0], [0, 0, 0]]])
+        n_el = [8 - q[0], 7 - q[1]]
+        valid = all((n + (m - 1 if uhf else 0)) % 2 == 0 for n, m in zip(n_el, mu))
+        try:
+            kw = dict(charges=torch.tensor(q))
+            if uhf:
+                kw["mult"] = torch.tensor(mu)
+            Molecule(Constants(), params, coords, species, **kw)
+            accepted, err = True, None
+        except Exception as exc:  # noqa
+            accepted, err = False, repr(exc)[:160]
+        return {"reproduced": bool(accepted != valid), "charges": q, "multiplicities": mu if uhf else None, "valence_electrons": n_el, "request_is_valid": valid, "accepted": accepted, "exception": err}
+    return rp
+
+
 def task_electron_count(ctx):
-    """Parser.forward: RHF + odd electron count raises; UHF + impossible charge/multiplicity raises."""
+    """Parser.forward on a two-molecule batch [H2O, OH + padding] with symbolic per-molecule charges (and multiplicities):
+    RHF accepts iff EVERY molecule has an even electron count; UHF accepts iff every molecule's charge/multiplicity pair
+    gives integer occupations."""
     fn = ctx.under_contract(BAS + ":Parser.forward")
-    q = integer("charge")
-    mult = integer("mult")
+    q = [integer("charge0"), integer("charge1")]
+    mult = [integer("mult0"), integer("mult1")]
+    species = [[8, 1, 1], [8, 1, 0]]
 
     def run(uhf):
         def thunk():
-            assume((q >= -2) & (q <= 2))
+            for v in q:
+                assume((v >= -2) & (v <= 2))
             ps = C19.make_parser(Fraction(10) ** 10)
             ps.__dict__["uhf"] = uhf
-            mol = C19.parser_molecule([[8, 1, 1]])
-            mol.tot_charge = st.T(np.array([q], dtype=object), st.int64, True)
+            mol = C19.parser_molecule(species)
+            mol.tot_charge = st.T(np.array(q, dtype=object), st.int64, True)
             if uhf:
-                assume((mult >= 1) & (mult <= 4))
-                mol.mult = st.T(np.array([mult], dtype=object), st.int64, True)
+                for v in mult:
+                    assume((v >= 1) & (v <= 4))
+                mol.mult = st.T(np.array(mult, dtype=object), st.int64, True)
             fn(ps, mol, "AM1")
             return "accepted"
-        return ctx.explore(thunk, name="Parser uhf=%s" % uhf, max_paths=256)
+        return ctx.explore(thunk, name="Parser uhf=%s" % uhf, max_paths=1024)
 
-    n_el = 8 - q  # valence electrons of H2O minus the charge
+    n_el = [8 - q[0], 7 - q[1]]  # valence electrons minus the charge
     ex = run(False)
     kinds = set()
+    all_even = (n_el[0] % 2 == 0) & (n_el[1] % 2 == 0)
     for p in ex.paths:
         if p.raised is None:
             kinds.add("ok")
-            ctx.prove("RHF.accepted=>even-electron-count@p%d" % p.path_id, n_el % 2 == 0, pc=p.pc)
+            ctx.prove("RHF.accepted=>every-molecule-has-an-even-electron-count@p%d" % p.path_id, all_even, pc=p.pc, replay=replay_electron_count(False), classify=lambda m_, r: "odd-electron-molecule-accepted")
         elif isinstance(p.raised, ValueError):
             kinds.add("raise")
-            ctx.prove("RHF.rejected=>odd-electron-count@p%d" % p.path_id, n_el % 2 == 1, pc=p.pc)
+            ctx.prove("RHF.rejected=>some-molecule-has-an-odd-electron-count@p%d" % p.path_id, ~all_even, pc=p.pc, replay=replay_electron_count(False), classify=lambda m_, r: "valid-request-rejected")
         else:
             ctx.fail("RHF.unexpected@p%d" % p.path_id, repr(p.raised) + p.notes.get("traceback", "")[-500:])
     if kinds != {"ok", "raise"}:
         ctx.error("RHF.paths", repr(kinds))
     ex = run(True)
     kinds = set()
+    # possible iff n_el and (mult-1) have the same parity (then both occupations are integers)
+    possible = ((n_el[0] + mult[0] - 1) % 2 == 0) & ((n_el[1] + mult[1] - 1) % 2 == 0)
     for p in ex.paths:
-        # possible iff n_el and (mult-1) have the same parity (then both occupations are integers)
-        possible = (n_el + mult - 1) % 2 == 0
         if p.raised is None:
             kinds.add("ok")
-            ctx.prove("UHF.accepted=>integer-occupations@p%d" % p.path_id, possible, pc=p.pc)
+            ctx.prove("UHF.accepted=>integer-occupations-in-every-molecule@p%d" % p.path_id, possible, pc=p.pc, replay=replay_electron_count(True), classify=lambda m_, r: "impossible-multiplicity-accepted")
         elif isinstance(p.raised, ValueError):
             kinds.add("raise")
-            ctx.prove("UHF.rejected=>impossible-charge/multiplicity@p%d" % p.path_id, ~possible, pc=p.pc)
+            ctx.prove("UHF.rejected=>impossible-charge/multiplicity-in-some-molecule@p%d" % p.path_id, ~possible, pc=p.pc, replay=replay_electron_count(True), classify=lambda m_, r: "valid-request-rejected")
         else:
             ctx.fail("UHF.unexpected@p%d" % p.path_id, repr(p.raised) + p.notes.get("traceback", "")[-500:])
     if kinds != {"ok", "raise"}:
         ctx.error("UHF.paths", repr(kinds))
+    ctx.assume_note("batch [H2O, OH + padding]; charges in [-2, 2], multiplicities in [1, 4], both per molecule and symbolic")
 
 
 def task_solver_combinations(ctx):
